@@ -25,8 +25,10 @@ import (
 
 	"github.com/gnolang/gno/gno.land/pkg/gnoland"
 	"github.com/gnolang/gno/tm2/pkg/amino"
+	abcit "github.com/gnolang/gno/tm2/pkg/bft/abci/types"
 	bft "github.com/gnolang/gno/tm2/pkg/bft/types"
 	"github.com/gnolang/gno/tm2/pkg/crypto"
+	"github.com/gnolang/gno/tm2/pkg/crypto/secp256k1"
 	"github.com/gnolang/gno/tm2/pkg/db/memdb"
 	tmerrors "github.com/gnolang/gno/tm2/pkg/errors"
 	"github.com/gnolang/gno/tm2/pkg/log"
@@ -66,6 +68,8 @@ type kenv struct {
 	names map[crypto.Address]string
 	addrs map[string]crypto.Address
 	coll  crypto.Address
+	keys  map[string]secp256k1.PrivKeySecp256k1 // every address of a behaviour is a keyed account, the fee collector included
+	ante  sdk.AnteHandler
 	genKey string           // JSON of the genesis step the layer below was built from
 	gen    store.MultiStore // state after genesis (verified once), shared by the behaviours of one run
 }
@@ -86,12 +90,16 @@ func newKenv(scale int64) *kenv {
 	bankk := bank.NewBankKeeper(acck, prmk.ForModule(bank.ModuleName), mainKey, []string{denomU})
 	prmk.Register(auth.ModuleName, acck)
 	prmk.Register(bank.ModuleName, bankk)
-	if err := acck.SetParams(ctx, auth.DefaultParams()); err != nil {
+	// the fee collector is a governance-settable address: here a keyed account that can sign transactions
+	ap := auth.DefaultParams()
+	ap.FeeCollector = keyOf("coll").PubKey().Address()
+	if err := acck.SetParams(ctx, ap); err != nil {
 		mbt.Die("auth params: %v", err)
 	}
 	ms.Commit()
 	e := &kenv{ms: ms, key: mainKey, acck: acck, bankk: bankk, prmk: prmk, base: ctx, scale: scale}
 	e.coll = acck.FeeCollectorAddress(ctx)
+	e.ante = auth.NewAnteHandler(acck, bankk, auth.DefaultSigVerificationGasConsumer, auth.AnteOptions{VerifyGenesisSignatures: true})
 	return e
 }
 
@@ -100,16 +108,52 @@ func (e *kenv) reset(addrNames []string, from store.MultiStore) {
 	e.now = 0
 	e.names = map[crypto.Address]string{}
 	e.addrs = map[string]crypto.Address{}
+	e.keys = map[string]secp256k1.PrivKeySecp256k1{}
 	for _, n := range addrNames {
-		var a crypto.Address
-		if n == "coll" {
-			a = e.coll
-		} else {
-			a = crypto.AddressFromPreimage([]byte("verif-bank-" + n))
+		e.keys[n] = keyOf(n)
+		a := e.keys[n].PubKey().Address()
+		if n == "coll" && a != e.coll {
+			mbt.Die("fee collector address is not the collector key's")
 		}
 		e.names[a] = n
 		e.addrs[n] = a
 	}
+}
+
+func keyOf(name string) secp256k1.PrivKeySecp256k1 {
+	return secp256k1.GenPrivKeySecp256k1([]byte("verif-bank-" + name))
+}
+
+// anteTx builds a transaction signed by the given accounts (each with its current account number and
+// sequence) and runs the REAL auth ante handler on it. An abort discards the layer, as runTx does.
+func (e *kenv) anteTx(ctx sdk.Context, signers []string, fee int64) error {
+	var msgs []std.Msg
+	for _, n := range signers {
+		msgs = append(msgs, bank.MsgSend{FromAddress: e.addrs[n], ToAddress: e.addrs[n], Amount: std.Coins{{Denom: denomU, Amount: 1}}})
+	}
+	tx := std.Tx{Msgs: msgs, Fee: std.Fee{GasWanted: 50_000_000, GasFee: std.Coin{Denom: denomU, Amount: fee * e.scale}}}
+	for _, n := range signers {
+		acc := e.acck.GetAccount(ctx, e.addrs[n])
+		if acc == nil {
+			mbt.Die("signer %s has no account", n)
+		}
+		sb, err := tx.GetSignBytes(ctx.ChainID(), acc.GetAccountNumber(), acc.GetSequence())
+		if err != nil {
+			return err
+		}
+		sig, err := e.keys[n].Sign(sb)
+		if err != nil {
+			return err
+		}
+		tx.Signatures = append(tx.Signatures, std.Signature{PubKey: e.keys[n].PubKey(), Signature: sig})
+	}
+	actx := ctx.WithConsensusParams(&abcit.ConsensusParams{Block: &abcit.BlockParams{MaxTxBytes: 1_000_000, MaxDataBytes: 2_000_000, MaxGas: 1_000_000_000, TimeIotaMS: 100}}).
+		WithValue(auth.AuthParamsContextKey{}, e.acck.GetParams(ctx))
+	_, res, abort := e.ante(actx, tx, false)
+	if abort {
+		return res.Error
+	}
+	return nil
 }
 
 func (e *kenv) ctxOn(ms store.MultiStore) sdk.Context {
@@ -377,6 +421,8 @@ func (e *kenv) step(s mbt.Step) string {
 			}
 			return res.Error
 		})
+	case "AnteTx":
+		return e.run(true, func(ctx sdk.Context) error { return e.anteTx(ctx, mbt.Strs(s["signers"]), int64(s.Int("fee"))) })
 	case "InputOutputCoins":
 		ins, _ := inouts(e, s["ins"])
 		_, outs := inouts(e, s["outs"])
@@ -462,6 +508,14 @@ func replayOne(e *kenv, beh []mbt.Step) (mis *mism, steps int) {
 		exp := normExp(s["st"].(map[string]any))
 		if reply != s.Str("reply") || !obs.equals(exp, nameList) {
 			key := fmt.Sprintf("C14:%s:%s", s.Act(), s.Str("reply"))
+			if sg := mbt.Strs(s["signers"]); s.Act() == "AnteTx" && len(sg) > 1 && reply == "ok" {
+				for i, n := range sg {
+					if i >= 1 && n == "coll" && obs.Acct["coll"]["u"] < num(exp["acct"].(map[string]any)["coll"].(map[string]any)["u"]) {
+						// the collector co-signed at a position >= 1: its stale account copy was written back over the fee
+						key = "C14:ante:collector-cosigner:fee-destroyed"
+					}
+				}
+			}
 			return &mism{key, fmt.Sprintf("step %d %s: reply %q (spec %q); state %s (spec %s) bank-invariants: %q", k, mbt.JS(dropSt(s)), reply, s.Str("reply"), mbt.JS(obs), mbt.JS(exp), obs.bankMsg), cs}, steps
 		}
 		if k == 0 {
